@@ -1,5 +1,5 @@
 """C04 — dtype inference and promotion form an order-independent lattice."""
-import itertools, warnings
+import itertools, warnings, os
 from values import value_of, dtype_wire, tag_code, kind_code, POOL, storage
 from extract_consts import kind_codes
 
@@ -9,7 +9,11 @@ RULE = ("infer: every tag sequence up to length 3 (quick) / 4 (thorough) over 16
         "the Lean spec inferSpec (join of occurring kinds, nullable iff None occurs) and the model infer; "
         "promote: all (dtype, value) pairs; results: schema() of arithmetic/join/aggregate/CSV outputs (numeric ladder, and the "
         "temporal ladder through the _Date routes: date/datetime/mixed columns +/- days as scalar, int vector, list, timedelta, "
-        "with None on either side, comparisons, joins, aggregates) against infer of their values. non-trivial = at least two distinct tags in the sequence (or a promotion that changes the dtype)")
+        "with None on either side, comparisons, joins, aggregates) against infer of their values. Added by the gap analysis: every pooled value "
+        "(falsy ones too) as the promoting value and as the first element, zeros equal across types, long sequences through every "
+        "container / constructor route (tuple, iterator, generator, dict view, Vector, Table), - // % ** between vectors, abs/+, list and "
+        "tuple operands, the same object twice, table with table, str and complex results, header-less CSV, and results of 300 / 1100 "
+        "rows whose deciding element comes last. non-trivial = at least two distinct tags in the sequence (or a promotion that changes the dtype)")
 ASSUMPTIONS = ["elements are instances of the listed classes or of strict subclasses of them (IntEnum, float/str/date subclasses, "
                "namedtuple, …), which count as their base kind throughout, as infer_kind's isinstance tests classify them",
                "promote_with / infer_kind / validate_scalar inspect only the exact type of a value (tabulation assumption)"]
@@ -85,8 +89,46 @@ def generate(rng, tier):
         yield {"fam": "result", "op": rng.choice(["add", "mul", "truediv", "radd", "join", "joinwide", "joinwide", "aggwide", "aggexo", "aggexo", "aggregate", "csv", "neg", "window", "scalar", "scalar", "rscalar", "tscalar", "dateadd", "dateadd", "datesub", "datecmp", "datejoin", "dateagg"]),
                "a": [rng.choice([0, 1, 2, 3]) for _ in range(rng.randint(1, 5))], "seed": rng.randint(0, 10**6)}
 
+    if os.environ.get("VERIF_OLD_FAMILIES_ONLY"):
+        return          # (for comparing what the families below add: NOTES.md of the gap analysis)
+    # --- added by the gap analysis (after the older families: their random draws stay what they were) ---
+    # every pooled VALUE of every tag as the promoting value: the falsy ones (False, 0, 0.0, 0j, '', b'', [], {}, ()) are values like
+    # any other — only None lifts nullability
+    for k in sorted(inv):
+        for nullable in (False, True):
+            for t in CODES:
+                for variant in range(1, len(POOL[t])):
+                    yield {"fam": "promote", "kind": k, "nullable": nullable, "tag": t, "variant": variant}
+    # the same exhaustive short sequences with the pool rotated: a falsy value FIRST (variant 0 starts every sequence with a truthy one)
+    for n in range(1, 4):
+        for tags in itertools.product(CODES, repeat=n):
+            yield {"fam": "infer", "tags": list(tags), "variant": 1}
+    # values equal across types, the zeros this time (False == 0 == 0.0 == 0j, all falsy), short and long; and long sequences
+    # through every constructor / container route (tuple, one-shot iterator, Vector): `routes`
+    for n in (1, 2, 3):
+        for tags in itertools.product([0, 1, 2, 3, 4], repeat=n):
+            yield {"fam": "infer", "tags": list(tags), "variant": 0, "pool": "zero"}
+    for _ in range(60 if tier == "quick" else 1500):
+        n = rng.choice([5, 40, 257, 300, 700, 1100])
+        kinds = rng.sample([1, 2, 3, 4], rng.randint(2, 3))
+        wide = max(kinds)
+        tags = [rng.choice([k for k in kinds if k != wide]) for _ in range(n)]
+        tags.insert(rng.choice([0, n, n, rng.randrange(n + 1)]), wide)          # the widest type once: first, LAST, or anywhere
+        if rng.random() < 0.4:
+            tags.insert(rng.choice([0, len(tags), rng.randrange(len(tags))]), 0)
+        yield {"fam": "infer", "tags": tags, "variant": 0, "pool": rng.choice(["zero", "equal"]), "routes": True}
+    for _ in range(60 if tier == "quick" else 1500):
+        n = rng.choice([40, 257, 300, 1100])
+        pool = rng.sample(CODES, rng.randint(1, 3))
+        tags = [rng.choice(pool) for _ in range(n)] + [rng.choice(CODES)]       # the deciding element may be the last one
+        yield {"fam": "infer", "tags": tags, "variant": rng.randint(0, 3), "routes": True}
+    for i in range(1200 if tier == "quick" else 16000):
+        yield {"fam": "result", "op": rng.choice(["vvop", "vvop", "unary", "listop", "selfop", "ttop", "csvnh", "strop", "complexop",
+                                                  "big", "big", "big"]),
+               "a": [rng.choice([0, 1, 2, 3]) for _ in range(rng.randint(1, 5))], "seed": rng.randint(0, 10**6)}
 
 EQUAL_POOL = {0: None, 1: True, 2: 1, 3: 1.0, 4: 1 + 0j}
+ZERO_POOL = {0: None, 1: False, 2: 0, 3: 0.0, 4: 0j}
 
 # instances of strict SUBCLASSES of the ladder / container types (enum.IntEnum, a float subclass as numpy's float64 is, a str
 # subclass, a date subclass, a namedtuple …): the quantifier's "arbitrary other classes".  infer_kind classifies with isinstance,
@@ -196,6 +238,8 @@ def _values(spec):
         return vals
     if spec.get("pool") == "equal":
         return [EQUAL_POOL[c] for c in spec["tags"]]
+    if spec.get("pool") == "zero":
+        return [ZERO_POOL[c] for c in spec["tags"]]
     vals = [value_of(c, spec.get("variant", 0) + i) for i, c in enumerate(spec["tags"])]
     if spec.get("pool") == "huge":
         # ints beyond float range: they are ints all the same (kind int; they belong to a float / complex vector by the widening
@@ -222,12 +266,28 @@ def execute(spec):
             s = v.schema()
             if vals and dtype_wire(s) != dtype_wire(d):
                 w["py_fail"] = f"Vector(values).schema()={s!r} differs from infer_dtype(values)={d!r}"
-            if "py_fail" not in w and len(vals) <= 4:
+            if "py_fail" not in w and vals and (len(vals) <= 4 or spec.get("routes")) and not os.environ.get("VERIF_OLD_FAMILIES_ONLY"):
+                # infer_dtype takes any iterable: the container must not matter (a tuple, a one-shot iterator, a dict's keys view)
+                for label, cont in (("tuple(values)", lambda: tuple(vals)), ("iter(values)", lambda: iter(vals)),
+                                    ("a generator over values", lambda: (x for x in vals)),
+                                    ("dict(enumerate(values)).values()", lambda: dict(enumerate(vals)).values())):
+                    try:
+                        d2 = infer_dtype(cont())
+                    except Exception as e:
+                        w["py_fail"] = f"infer_dtype({label}) raised {type(e).__name__} (judged in Python)"
+                        break
+                    if dtype_wire(d2) != dtype_wire(d):
+                        w["py_fail"] = (f"infer_dtype({label})={d2!r} differs from infer_dtype(list(values))={d!r} for {len(vals)} values "
+                                        f"of types {sorted({type(x).__name__ for x in vals})} (judged in Python)")
+                        break
+            if "py_fail" not in w and (len(vals) <= 4 or spec.get("routes")):
                 # a Vector is itself a finite sequence of the same values: every constructor route must infer the same dtype
                 from serif import Table
                 for label, build in (("Vector(Vector(values))", lambda: Vector(v)),
                                      ("Table({'a': Vector(values)}).a", lambda: Table({"a": v}).cols()[0]),
-                                     ("Vector(iter(values))", lambda: Vector(iter(vals)))):
+                                     ("Vector(iter(values))", lambda: Vector(iter(vals))),
+                                     ("Vector(tuple(values))", lambda: Vector(tuple(vals))),
+                                     ("Table({'a': values}).a", lambda: Table({"a": vals}).cols()[0])):
                     try:
                         v2 = build()
                     except Exception as e:
@@ -257,7 +317,7 @@ def execute(spec):
         cmap = _exo_codes(spec)
         kind = type(EXOTIC[spec["exokind"]]) if "exokind" in spec else inv[spec["kind"]]
         d = DataType(kind, spec["nullable"])
-        val = EXOTIC[spec["exoval"]] if "exoval" in spec else SUB_POOL[spec["tag"]] if spec.get("sub") else value_of(spec["tag"])
+        val = EXOTIC[spec["exoval"]] if "exoval" in spec else SUB_POOL[spec["tag"]] if spec.get("sub") else value_of(spec["tag"], spec.get("variant", 0))
         r = d.promote_with(val)
         return {"fam": "promote", "case": {"dtype": [cmap.get(kind, spec["kind"]), spec["nullable"]], "tag": cmap.get(type(val), spec["tag"])},
                 "impl": _dwire(r, cmap)}
@@ -395,6 +455,76 @@ def _result(spec):
             if not cols:
                 return {"skip": "no columns"}
             r = rng.choice(cols)
+        elif op in ("vvop", "unary", "listop", "selfop", "ttop", "strop", "complexop"):
+            # (gap analysis) the operators and operand forms the older `result` family never combines: - // % ** between two vectors,
+            # abs / +, a list or tuple operand on either side, the same object on both sides, table with table, str and complex values
+            import operator
+            nz = lambda xs: [x if x not in (0, False, 0.0) else 1 for x in xs]
+            f = getattr(operator, rng.choice(["add", "sub", "mul", "truediv", "floordiv", "mod", "pow"]))
+            if op == "vvop":
+                r = f(Vector(a), Vector([x if x is None else rng.choice([x, -x]) for x in nz(b)]))
+            elif op == "unary":
+                r = rng.choice([operator.abs, operator.pos, operator.neg])(Vector(a))
+            elif op == "listop":
+                other = rng.choice([list, tuple])(nz(b))
+                r = f(Vector(a), other) if rng.random() < 0.5 else f(other, Vector(nz(a)))
+            elif op == "selfop":
+                v = Vector(nz(a))
+                r = f(v, v)
+            elif op == "ttop":
+                r = rng.choice(f(Table({"p": a, "q": nz(b)}), Table({"p": nz(b), "q": nz(b)})).cols())
+            elif op == "strop":
+                sv = Vector([None if x is None else "ab"[:1 + (i % 2)] for i, x in enumerate(a)])
+                r = rng.choice([lambda: sv + "x", lambda: "x" + sv, lambda: sv * 2, lambda: sv + sv, lambda: sv * Vector([1 if x is None else 2 for x in a]),
+                                lambda: sv == "a", lambda: Table({"k": [1] * len(a), "s": sv}).aggregate(over="k", min_over="s", max_over="s", count_over="s").cols()[rng.randrange(4)]])()
+            else:
+                cv = Vector([None if x is None else rng.choice([1 + 2j, 2j, 1, 0.5, True]) for x in a])
+                r = rng.choice([lambda: f(cv, 2), lambda: f(2, cv), lambda: f(cv, 1j), lambda: f(cv, cv), lambda: abs(cv), lambda: -cv])()
+        elif op == "csvnh":
+            cells = ["", "1", "2.5", "x", " 7 ", " ", "-3", "1e3"]
+            rows = [[rng.choice(cells) for _ in range(rng.choice([2, 2, 1, 3]))] for _ in a]
+            t = read_csv(io.StringIO("\n".join(",".join(r) for r in rows) + "\n"), has_header=False)
+            cols = t.cols()
+            if not cols:
+                return {"skip": "no columns"}
+            r = rng.choice(cols)
+        elif op == "big":
+            # (gap analysis) results far beyond any size threshold, where the ONE element that decides the dtype comes last (or first):
+            # typed by the rule applied to all their values, not to a sample
+            import operator
+            n = rng.choice([300, 1100])
+            odd_at = rng.choice([n - 1, n - 1, 0, n // 2])
+            def col(base, odd):
+                xs = [base] * n
+                xs[odd_at] = odd
+                return xs
+            how = rng.choice(["pow", "div", "neg", "radd", "mul", "tt", "join", "agg", "window", "csv", "cmp"])
+            if how == "pow":
+                r = Vector([2] * n) ** Vector(col(1, -1))                     # one float among ints
+            elif how == "div":
+                r = Vector(col(4, None)) // Vector([2] * n)
+            elif how == "neg":
+                r = rng.choice([operator.neg, operator.abs])(Vector(col(True, rng.choice([None, 2]))))
+            elif how == "radd":
+                r = rng.choice([1, True, 1.5]) + Vector(col(1, rng.choice([None, 0.5])))
+            elif how == "mul":
+                r = Vector(col(1, rng.choice([0.5, None, True]))) * rng.choice([2, Vector([2] * n), [2] * n])
+            elif how == "tt":
+                r = rng.choice((Table({"p": col(1, 0.5), "q": col(2, None)}) + Table({"p": [1] * n, "q": col(1, 1.5)})).cols())
+            elif how == "join":
+                L = Table({"k": list(range(n)), "x": col(1, rng.choice([0.5, None, 1]))})
+                R = Table({"k": [odd_at, n + 5], "y": [1, 2]})
+                r = rng.choice(rng.choice([L.join, L.full_join])(R, "k", "k", expect="many_to_many").cols())
+            elif how in ("agg", "window"):
+                t = Table({"k": [i // 2 for i in range(n)], "x": col(1, rng.choice([None, 0.5])), "y": col(None, 1)})
+                fn = t.aggregate if how == "agg" else t.window
+                r = rng.choice(fn(over="k", sum_over="x", mean_over="y", max_over="x", min_over="y", count_over="y").cols())
+            elif how == "csv":
+                cells = col("1", rng.choice(["", "2.5", "x", " "]))
+                t = read_csv(io.StringIO("p,q\n" + "\n".join(f"{c},{i}" for i, c in enumerate(cells)) + "\n"))
+                r = t.cols()[0]
+            else:
+                r = Vector(col(1, None)) < Vector(col(2, None))
         else:
             raise ValueError(op)
     except Exception as e:
